@@ -148,6 +148,11 @@ end unfold
 /-- the same environment with other context types -/
 def Env.setVars (Γ : Env) (vs : List (String × Ty)) : Env := { Γ with vars := vs }
 
+@[simp] theorem setVars_vars (Γ : Env) (vs : List (String × Ty)) : (Γ.setVars vs).vars = vs := rfl
+@[simp] theorem setVars_funcs (Γ : Env) (vs : List (String × Ty)) : (Γ.setVars vs).funcs = Γ.funcs := rfl
+@[simp] theorem setVars_availCtx (Γ : Env) (vs : List (String × Ty)) : (Γ.setVars vs).availCtx = Γ.availCtx := rfl
+@[simp] theorem setVars_lower (Γ : Env) (vs : List (String × Ty)) : (Γ.setVars vs).lower = Γ.lower := rfl
+
 /-- `LooserEnv` for the deref-aware relation: the context types are `LooserD`-related, everything
 else is equal. -/
 structure LooserEnvD (Γ Γ' : Env) : Prop where
